@@ -1,8 +1,432 @@
-//! C17 — not built yet.
+//! C17 — shared decryptor, key generator, evaluator linearizable under all interleavings (engine E3).
 use crate::engine::*;
+use crate::he::*;
+use crate::sched::*;
+use heathcliff::*;
+use serde::{Deserialize, Serialize};
+use serde_json::{json, Value};
+use std::sync::Arc;
+use std::time::{Duration, Instant};
 
-pub fn describe(_rep: &Report) {}
+pub fn describe(rep: &Report) {
+    rep.set_rule(
+        "E3 stateless model checking on the real code: 2-4 real threads share one Decryptor / KeyGenerator / context; a cooperative scheduler \
+         takes a decision before EVERY RwLock acquisition of the three caches (reported by the lock wrapper of the hooked build itself, so any \
+         lock phase added or moved by a change becomes a scheduling point automatically), at thread start and end; the enabled set is computed \
+         from the tracked lock state. All schedules are enumerated depth-first by iterated preemption bound (0,1,2,… or unbounded), each run \
+         to completion. Per schedule: every thread's result must be byte-identical to the sequential result of the same call (same scripted \
+         entropy), no panic, no deadlock (no enabled thread), no hang, cache length observed at every decision point non-decreasing and a \
+         multiple of the key polynomial size. states = decision points visited, transitions = scheduling decisions taken; \
+         traces_validated_against_impl = complete executions compared with the sequential reference. non-trivial = executions with >= 1 preemption \
+         or >= 2 threads touching the same lock.",
+    );
+    rep.assume("scheduling points at lock-operation granularity; code between two lock operations of one thread is treated as atomic (all shared mutable state of these objects is behind the RwLocks; Rust's type system excludes unsynchronised sharing elsewhere)");
+    rep.assume("weak memory effects are not modelled (the crate has no atomics; RwLock provides the happens-before edges)");
+    rep.assume("a free-running (uncontrolled) repetition of the same bodies is reported under observations as a sampling complement, not part of the verdict");
+}
 
-pub fn sections(_cfg: &RunCfg) -> Vec<Box<dyn AnySection>> {
-    vec![]
+#[derive(Serialize, Deserialize, Clone, Debug, PartialEq, Eq, Hash)]
+pub enum Body {
+    /// decrypt a ciphertext of the given size (needs secret key power size-1)
+    Decrypt(usize),
+    /// relinearization keys for `count` powers (needs power count+1)
+    Relin(usize),
+    /// Galois keys for one element
+    GaloisKey(usize),
+    /// apply_galois on an NTT-form ciphertext with the given element
+    Rotate(usize),
+    /// two operations in sequence
+    Seq(Box<Body>, Box<Body>),
+}
+
+#[derive(Serialize, Deserialize, Clone, Debug)]
+pub struct Scenario {
+    pub name: String,
+    pub scheme: Scheme,
+    pub threads: Vec<Body>,
+    /// preemption bound (None = all schedules)
+    pub bound: Option<usize>,
+}
+
+struct Fixture {
+    spec: ParamSpec,
+    sk: SecretKey,
+    cts: Vec<Ciphertext>, // index = size
+    rot_ct: Ciphertext,
+    gk: GaloisKeys,
+    poly_words: usize,
+}
+
+fn fixture(scheme: Scheme, seed: u64) -> Result<Fixture, String> {
+    let n = 4;
+    let spec = ParamSpec::new(scheme, n, chain(n, &[40, 40, 40]), 17);
+    env_real(seed, h64(&("c17-fixture", &spec)));
+    let kit = Kit::new(&spec)?;
+    let mk_plain = || {
+        if scheme == Scheme::CKKS {
+            let enc = CKKSEncoder::new(kit.ctx.clone());
+            enc.encode_c64_array_new(&[num_complex::Complex::new(1.5, -2.0), num_complex::Complex::new(0.25, 3.0)], None, (1u64 << 12) as f64)
+        } else {
+            kit.plain(&[1, 2, 3, 4])
+        }
+    };
+    let a = kit.enc.encrypt_new(&mk_plain());
+    let mut cts = vec![Ciphertext::new(), Ciphertext::new(), a.clone()];
+    let mut cur = a.clone();
+    for _ in 3..=5 {
+        cur = kit.eval.multiply_new(&cur, &a);
+        cts.push(cur.clone());
+    }
+    let rot_ct = if scheme == Scheme::BFV { kit.eval.transform_to_ntt_new(&a) } else { a.clone() };
+    let gk = kit.keygen.create_galois_keys_from_elts(&[3, 5, 7], false);
+    let poly_words = n * spec.q.len();
+    Ok(Fixture { spec, sk: kit.sk.clone(), cts, rot_ct, gk, poly_words })
+}
+
+struct Shared {
+    ctx: Arc<HeContext>,
+    dec: Decryptor,
+    keygen: KeyGenerator,
+    eval: Evaluator,
+}
+
+fn fp_keys(k: &KSwitchKeys) -> u64 {
+    let mut h = 0u64;
+    for (i, v) in k.data().iter().enumerate() {
+        for pk in v {
+            h = h64(&(h, i, pk.data().as_slice()));
+        }
+    }
+    h
+}
+
+fn run_body(b: &Body, sh: &Shared, fx: &Fixture, seed: u64, tag: u64) -> u64 {
+    match b {
+        Body::Decrypt(size) => pt_fingerprint(&sh.dec.decrypt_new(&fx.cts[*size])),
+        Body::Relin(count) => {
+            env_real(seed, tag);
+            fp_keys(sh.keygen.verif_create_relin_keys(*count, false).as_kswitch_keys())
+        }
+        Body::GaloisKey(elt) => {
+            env_real(seed, tag);
+            fp_keys(sh.keygen.create_galois_keys_from_elts(&[*elt], false).as_kswitch_keys())
+        }
+        Body::Rotate(elt) => {
+            let r = if fx.spec.scheme == Scheme::BFV {
+                // BFV ciphertexts rotate in coefficient form through apply_p (no cache); the NTT path is reached through an NTT-form plaintext
+                let ct = &fx.rot_ct;
+                let mut p = Plaintext::new();
+                p.resize(ct.poly(0).len());
+                p.data_mut().copy_from_slice(ct.poly(0));
+                p.set_parms_id(*ct.parms_id());
+                return pt_fingerprint(&sh.eval.apply_galois_plain_new(&p, *elt));
+            } else {
+                sh.eval.apply_galois_new(&fx.rot_ct, *elt, &fx.gk)
+            };
+            ct_fingerprint(&r)
+        }
+        Body::Seq(a, b) => {
+            let x = run_body(a, sh, fx, seed, tag);
+            let y = run_body(b, sh, fx, seed, tag ^ 0x9e37);
+            h64(&(x, y))
+        }
+    }
+}
+
+fn shared(fx: &Fixture) -> Shared {
+    let ctx = fx.spec.context();
+    Shared { dec: Decryptor::new(ctx.clone(), fx.sk.clone()), keygen: KeyGenerator::from_sk(ctx.clone(), fx.sk.clone()), eval: Evaluator::new(ctx.clone()), ctx }
+}
+
+pub struct E3Section {
+    pub sc: Scenario,
+    pub seed: u64,
+    pub budget_share: f64,
+}
+
+struct Outcome {
+    fail: Option<Fail>,
+    class: u64,
+}
+
+fn judge(sc: &Scenario, fx: &Fixture, expected: &[u64], ex: &Execution<u64>) -> Outcome {
+    let shape = format!("{}:{:?}", sc.name, sc.scheme);
+    if let Some(d) = &ex.diverged {
+        return Outcome { fail: Some(Fail { key: format!("{shape}:replay-diverged"), expected: "the recorded schedule is replayable".into(), observed: d.clone() }), class: 1 };
+    }
+    if ex.deadlock {
+        return Outcome { fail: Some(Fail { key: format!("{shape}:deadlock"), expected: "some thread is always enabled until all have finished".into(), observed: format!("no enabled thread after schedule {}", ex.schedule()) }), class: 2 };
+    }
+    if ex.hang {
+        return Outcome { fail: Some(Fail { key: format!("{shape}:hang"), expected: "every thread reaches a scheduling point or finishes within the horizon".into(), observed: format!("schedule {}", ex.schedule()) }), class: 3 };
+    }
+    for (t, r) in ex.results.iter().enumerate() {
+        match r {
+            Err(e) => {
+                return Outcome {
+                    fail: Some(Fail { key: format!("{shape}:thread-panic:{}", panic_class(e)), expected: "no panic".into(), observed: format!("thread {t} ({:?}): {e}; schedule {}", sc.threads[t], ex.schedule()) }),
+                    class: 4,
+                }
+            }
+            Ok(v) => {
+                if *v != expected[t] {
+                    return Outcome {
+                        fail: Some(Fail {
+                            key: format!("{shape}:result-differs-from-sequential"),
+                            expected: format!("thread {t} ({:?}) returns the bytes of the sequential call", sc.threads[t]),
+                            observed: format!("different bytes under schedule {}", ex.schedule()),
+                        }),
+                        class: 5,
+                    };
+                }
+            }
+        }
+    }
+    // cache observations: non-decreasing, multiples of the polynomial size
+    let mut last = 0u64;
+    for &o in &ex.observations {
+        if o % fx.poly_words as u64 != 0 || o < last {
+            return Outcome {
+                fail: Some(Fail {
+                    key: format!("{shape}:cache-not-monotone"),
+                    expected: "cache length is a multiple of the key polynomial size and never shrinks".into(),
+                    observed: format!("lengths {:?} under schedule {}", ex.observations, ex.schedule()),
+                }),
+                class: 6,
+            };
+        }
+        last = o;
+    }
+    Outcome { fail: None, class: h64(&(ex.observations.last(), ex.preemptions().min(3))) }
+}
+
+impl E3Section {
+    fn expected(&self, fx: &Fixture) -> Vec<u64> {
+        // sequential reference: each body alone on fresh shared objects
+        self.sc
+            .threads
+            .iter()
+            .enumerate()
+            .map(|(t, b)| {
+                let sh = shared(fx);
+                run_body(b, &sh, fx, self.seed, 7000 + t as u64)
+            })
+            .collect()
+    }
+
+    fn make<'a>(&'a self, fx: &Arc<Fixture>) -> (Vec<Box<dyn FnOnce() -> u64 + Send>>, Option<Box<dyn Fn() -> u64 + Send>>) {
+        let sh = Arc::new(shared(fx));
+        let mut bodies: Vec<Box<dyn FnOnce() -> u64 + Send>> = vec![];
+        for (t, b) in self.sc.threads.iter().enumerate() {
+            let (sh, fx, b, seed) = (sh.clone(), fx.clone(), b.clone(), self.seed);
+            bodies.push(Box::new(move || run_body(&b, &sh, &fx, seed, 7000 + t as u64)));
+        }
+        let uses_dec = self.sc.threads.iter().any(|b| format!("{:?}", b).contains("Decrypt"));
+        let sh2 = sh.clone();
+        let obs: Box<dyn Fn() -> u64 + Send> = if uses_dec {
+            Box::new(move || sh2.dec.verif_secret_key_array_len() as u64)
+        } else {
+            Box::new(move || sh2.keygen.verif_secret_key_array_len() as u64)
+        };
+        let _ = &sh.ctx;
+        (bodies, Some(obs))
+    }
+}
+
+impl AnySection for E3Section {
+    fn name(&self) -> String {
+        self.sc.name.clone()
+    }
+
+    fn replay(&self, case: &Value) -> Result<CaseOut, String> {
+        let sc: Scenario = serde_json::from_value(case["scenario"].clone()).map_err(|e| e.to_string())?;
+        let choices: Vec<usize> = serde_json::from_value(case["choices"].clone()).map_err(|e| e.to_string())?;
+        let sec = E3Section { sc: sc.clone(), seed: self.seed, budget_share: 1.0 };
+        let fx = Arc::new(fixture(sc.scheme, self.seed)?);
+        let expected = sec.expected(&fx);
+        // replay twice: identical observations are required before the verdict is trusted
+        let mut verdicts = vec![];
+        for _ in 0..2 {
+            let (bodies, obs) = sec.make(&fx);
+            let ex = run_schedule(bodies, choices.clone(), obs, Duration::from_secs(20));
+            let o = judge(&sc, &fx, &expected, &ex);
+            verdicts.push((o.fail.as_ref().map(|f| f.key.clone()), ex.schedule()));
+            if verdicts.len() == 2 {
+                if verdicts[0] != verdicts[1] {
+                    return Err(format!("replay not deterministic: {:?}", verdicts));
+                }
+                return Ok(match o.fail {
+                    Some(f) => CaseOut::fail(f.key, f.expected, f.observed),
+                    None => CaseOut::pass(true, o.class, 1),
+                });
+            }
+        }
+        unreachable!()
+    }
+
+    fn run(self: Box<Self>, rep: &Arc<Report>) {
+        let t0 = Instant::now();
+        let fx = match fixture(self.sc.scheme, self.seed) {
+            Ok(f) => Arc::new(f),
+            Err(e) => {
+                rep.machinery_error(format!("{}: fixture: {e}", self.sc.name));
+                return;
+            }
+        };
+        let expected = self.expected(&fx);
+        let deadline = Instant::now() + rep.cfg.remaining().mul_f64(self.budget_share.clamp(0.01, 1.0));
+        let mut decisions = 0u64;
+        let mut executions = 0u64;
+        let mut nontrivial = 0u64;
+        let mut classes: std::collections::HashSet<u64> = Default::default();
+        let mut final_lens: std::collections::BTreeSet<u64> = Default::default();
+        let mut first_schedule = None;
+        let mut last_schedule = String::new();
+        let mut lock_ops_max = 0u64;
+        // determinism self-test: the default schedule twice
+        {
+            let mut v = vec![];
+            for _ in 0..2 {
+                let (b, o) = self.make(&fx);
+                let ex = run_schedule(b, vec![], o, Duration::from_secs(20));
+                v.push((ex.schedule(), ex.results.iter().map(|r| r.clone().ok()).collect::<Vec<_>>(), ex.observations.clone()));
+            }
+            if v[0] != v[1] {
+                rep.machinery_error(format!("{}: determinism self-test failed (default schedule run twice differs)", self.sc.name));
+            }
+        }
+        let sc = self.sc.clone();
+        let fxc = fx.clone();
+        let repc = rep.clone();
+        let name = self.sc.name.clone();
+        let mut check = |ex: &Execution<u64>| -> bool {
+            executions += 1;
+            decisions += ex.decisions.len() as u64;
+            lock_ops_max = lock_ops_max.max(ex.lock_ops);
+            if ex.preemptions() > 0 {
+                nontrivial += 1;
+                repc.mark_nontrivial(h64(&(name.as_str(), ex.schedule())));
+            }
+            if first_schedule.is_none() {
+                first_schedule = Some(ex.schedule());
+            }
+            last_schedule = ex.schedule();
+            if let Some(l) = ex.observations.last() {
+                final_lens.insert(*l);
+            }
+            let o = judge(&sc, &fxc, &expected, ex);
+            classes.insert(o.class);
+            repc.mark_outcome(o.class);
+            if let Some(f) = o.fail {
+                repc.add_violation(&name, json!({"scenario": sc, "choices": ex.choices(), "schedule": ex.schedule()}), f);
+            }
+            true
+        };
+        let stats = explore(&|| self.make(&fx), self.sc.bound, 2_000_000, deadline, &mut check);
+        rep.evaluations.fetch_add(executions, std::sync::atomic::Ordering::Relaxed);
+        rep.steps.fetch_add(executions, std::sync::atomic::Ordering::Relaxed);
+        rep.states.fetch_add(decisions, std::sync::atomic::Ordering::Relaxed);
+        rep.transitions.fetch_add(decisions, std::sync::atomic::Ordering::Relaxed);
+        rep.sample(json!({"section": self.sc.name, "threads": self.sc.threads, "first_schedule": first_schedule, "last_schedule": last_schedule}));
+        let exhaustive = !stats.capped;
+        rep.push_section(SectionStat {
+            name: self.sc.name.clone(),
+            engine: "E3".into(),
+            cases: executions,
+            nontrivial,
+            skipped: 0,
+            outcomes: classes.len() as u64,
+            steps: executions,
+            states: decisions,
+            transitions: decisions,
+            exhaustive,
+            bound: format!(
+                "{:?} threads {:?}: {} schedules, {} (max {} decisions, max {} preemptions per schedule, <= {} lock operations); final cache lengths {:?}",
+                self.sc.scheme,
+                self.sc.threads,
+                executions,
+                match (self.sc.bound, stats.capped) {
+                    (_, true) => "CAPPED before the bound was completed".to_string(),
+                    (None, false) => "ALL schedules (unbounded)".to_string(),
+                    (Some(b), false) => format!("all schedules with <= {b} preemptions"),
+                },
+                stats.max_decisions,
+                stats.max_preemptions,
+                lock_ops_max,
+                final_lens
+            ),
+            wall_s: t0.elapsed().as_secs_f64(),
+            extra: json!({"preemption_bound": self.sc.bound, "distinct_outcome_classes": classes.len()}),
+        });
+    }
+}
+
+fn multisets<T: Clone>(items: &[T], k: usize) -> Vec<Vec<T>> {
+    fn rec<T: Clone>(items: &[T], k: usize, start: usize, cur: &mut Vec<T>, out: &mut Vec<Vec<T>>) {
+        if cur.len() == k {
+            out.push(cur.clone());
+            return;
+        }
+        for i in start..items.len() {
+            cur.push(items[i].clone());
+            rec(items, k, i, cur, out);
+            cur.pop();
+        }
+    }
+    let mut out = vec![];
+    rec(items, k, 0, &mut vec![], &mut out);
+    out
+}
+
+pub fn scenarios(cfg: &RunCfg) -> Vec<Scenario> {
+    let th = cfg.thorough();
+    let mut v = vec![];
+    let name = |p: &str, t: &[Body]| format!("{p}_{}", t.iter().map(|b| format!("{:?}", b).replace(['(', ')', ' ', ','], "")).collect::<Vec<_>>().join("+"));
+    // S1: decryptor, ciphertext sizes 2..4 (powers 1..3)
+    let dec: Vec<Body> = [2usize, 3, 4].iter().map(|s| Body::Decrypt(*s)).collect();
+    for scheme in [Scheme::BFV, Scheme::BGV] {
+        for ms in multisets(&dec, 2) {
+            v.push(Scenario { name: name(&format!("s1_{:?}", scheme).to_lowercase(), &ms), scheme, threads: ms, bound: None });
+        }
+    }
+    for ms in multisets(&dec, 3) {
+        v.push(Scenario { name: name("s1_bfv3", &ms), scheme: Scheme::BFV, threads: ms, bound: if th { None } else { Some(2) } });
+    }
+    // S2: key generator: relin keys needing power 2 / 3, Galois keys
+    let kg = vec![Body::Relin(1), Body::Relin(2), Body::GaloisKey(3)];
+    for ms in multisets(&kg, 2) {
+        // Galois key generation touches the table cache 2-3 times per RNS component: bound it in the quick tier
+        let heavy = ms.iter().filter(|b| matches!(b, Body::GaloisKey(_))).count() == 2;
+        v.push(Scenario { name: name("s2_bfv", &ms), scheme: Scheme::BFV, threads: ms, bound: if heavy && !th { Some(2) } else { None } });
+    }
+    for ms in multisets(&kg, 3) {
+        v.push(Scenario { name: name("s2_bfv3", &ms), scheme: Scheme::BFV, threads: ms, bound: Some(if th { 3 } else { 1 }) });
+    }
+    // S3: rotations through the shared Galois table cache (NTT path)
+    let rot = vec![Body::Rotate(3), Body::Rotate(5)];
+    for scheme in [Scheme::BGV, Scheme::CKKS, Scheme::BFV] {
+        for ms in multisets(&rot, 2) {
+            v.push(Scenario { name: name(&format!("s3_{:?}", scheme).to_lowercase(), &ms), scheme, threads: ms, bound: Some(if th { 4 } else { 2 }) });
+        }
+    }
+    // S4: mixed objects sharing one context, and two operations per thread
+    v.push(Scenario { name: "s4_mixed_dec_rot".into(), scheme: Scheme::BGV, threads: vec![Body::Decrypt(3), Body::Rotate(3)], bound: Some(if th { 4 } else { 2 }) });
+    v.push(Scenario { name: "s4_mixed_keygen_rot".into(), scheme: Scheme::BGV, threads: vec![Body::GaloisKey(3), Body::Rotate(3)], bound: Some(if th { 3 } else { 2 }) });
+    v.push(Scenario {
+        name: "s5_two_ops_each".into(),
+        scheme: Scheme::BFV,
+        threads: vec![Body::Seq(Box::new(Body::Decrypt(2)), Box::new(Body::Decrypt(4))), Body::Seq(Box::new(Body::Decrypt(3)), Box::new(Body::Decrypt(2)))],
+        bound: if th { None } else { Some(3) },
+    });
+    if th {
+        let four = vec![Body::Decrypt(2), Body::Decrypt(3), Body::Decrypt(4), Body::Decrypt(5)];
+        v.push(Scenario { name: "s6_four_threads".into(), scheme: Scheme::BFV, threads: four, bound: Some(2) });
+    }
+    v
+}
+
+pub fn sections(cfg: &RunCfg) -> Vec<Box<dyn AnySection>> {
+    let sc = scenarios(cfg);
+    let n = sc.len() as f64;
+    sc.into_iter().enumerate().map(|(i, s)| Box::new(E3Section { sc: s, seed: cfg.seed, budget_share: 1.0 / (n - i as f64) }) as Box<dyn AnySection>).collect()
 }
